@@ -60,7 +60,9 @@ package redis
 //@   ensures @parsed result1 == nil ==> result0 != nil && result0.raw == raw && len(raw.body.Array) >= 2
 
 //@ func handleScan
-//@   prop C18 C11 C02
+//@   prop C18 C11 C02 C01
+//@   assume oneline(respScanTerm)
+//@   callpre SetResponse @locally-built-replies-are-one-line oneline(arg1)
 //@   consumes req
 //@   transfers MakeRequestToHost req
 //@   requires req != nil && req.body != nil && u != nil
@@ -441,29 +443,34 @@ package redis
 //@   ensures @lookup-lowercase result1 == has(p.cmdHdlrs, lower(cmd)) && (result1 ==> result0 == p.cmdHdlrs[lower(cmd)])
 
 //@ func handleSimpleCommand
-//@   prop C11 C03 C02
+//@   prop C11 C03 C02 C01
+//@   callpre SetResponse @locally-built-replies-are-one-line oneline(arg1)
 //@   consumes req
 //@   transfers MakeRequest req
 //@   requires u != nil && req != nil && validbody(req.body)
 
 //@ func handleEval
-//@   prop C11 C03 C02
+//@   prop C11 C03 C02 C01
+//@   callpre SetResponse @locally-built-replies-are-one-line oneline(arg1)
 //@   consumes req
 //@   transfers MakeRequest req
 //@   requires u != nil && req != nil && validbody(req.body)
 
 //@ func handleSumResultCommand
-//@   prop C11 C03
+//@   prop C11 C03 C01
+//@   callpre SetResponse @locally-built-replies-are-one-line oneline(arg1)
 //@   requires u != nil && req != nil && validbody(req.body)
 //@   loop 0 assume forall k int :: 0 <= k && k < len(simpleReqs) ==> simpleReqs[k] != nil && simpleReqs[k].body != nil && len(simpleReqs[k].body.Array) >= 2
 
 //@ func handleMSet
-//@   prop C11 C03
+//@   prop C11 C03 C01
+//@   callpre SetResponse @locally-built-replies-are-one-line oneline(arg1)
 //@   requires u != nil && req != nil && validbody(req.body)
 //@   loop 0 assume forall k int :: 0 <= k && k < len(simpleReqs) ==> simpleReqs[k] != nil && simpleReqs[k].body != nil && len(simpleReqs[k].body.Array) >= 2
 
 //@ func handleMGet
-//@   prop C11 C03
+//@   prop C11 C03 C01
+//@   callpre SetResponse @locally-built-replies-are-one-line oneline(arg1)
 //@   requires u != nil && req != nil && validbody(req.body)
 //@   loop 0 assume forall k int :: 0 <= k && k < len(simpleReqs) ==> simpleReqs[k] != nil && simpleReqs[k].body != nil && len(simpleReqs[k].body.Array) >= 2
 
@@ -611,7 +618,8 @@ package redis
 //@   ensures @the-first-argument-unless-excluded result == ite(len(v.Array) <= 1 || cmd == "eval" || cmd == "cluster" || cmd == "auth" || cmd == "scan", "", str(v.Array[1].Text))
 
 //@ func (*compressFilter).Do
-//@   prop C11 C13 C02
+//@   prop C11 C13 C02 C01
+//@   callpre SetResponse @locally-built-replies-are-one-line oneline(arg1)
 //@   consumes req if result == "Stop"
 //@   modifies all
 //@   ensures @argument-array-keeps-its-length len(req.body.Array) == old(len(req.body.Array))
@@ -729,37 +737,46 @@ package redis
 // ---- C14: commands answered by the proxy itself never reach a backend -----------------------------
 
 //@ func handlePing
-//@   prop C14 C02
+//@   prop C01 C14 C02
+//@   callpre SetResponse @locally-built-replies-are-one-line oneline(arg1)
+//@   assume oneline(respPong)
 //@   consumes req
 //@   nocall MakeRequest
 //@   nocall Send
 
 //@ func handleQuit
-//@   prop C14 C02
+//@   prop C01 C14 C02
+//@   callpre SetResponse @locally-built-replies-are-one-line oneline(arg1)
+//@   assume oneline(respOK)
 //@   consumes req
 //@   nocall MakeRequest
 //@   nocall Send
 
 //@ func handleSelect
-//@   prop C14 C02
+//@   prop C01 C14 C02
+//@   callpre SetResponse @locally-built-replies-are-one-line oneline(arg1)
+//@   assume oneline(respOK)
 //@   consumes req
 //@   nocall MakeRequest
 //@   nocall Send
 
 //@ func handleInfo
-//@   prop C14 C02
+//@   prop C01 C14 C02
+//@   callpre SetResponse @locally-built-replies-are-one-line oneline(arg1)
 //@   consumes req
 //@   nocall MakeRequest
 //@   nocall Send
 
 //@ func handleTime
-//@   prop C14 C02
+//@   prop C01 C14 C02
+//@   callpre SetResponse @locally-built-replies-are-one-line oneline(arg1)
 //@   consumes req
 //@   nocall MakeRequest
 //@   nocall Send
 
 //@ func handleHotKey
-//@   prop C14 C19 C02
+//@   prop C01 C14 C19 C02
+//@   callpre SetResponse @locally-built-replies-are-one-line oneline(arg1)
 //@   requires u != nil && u.hkc != nil
 //@   consumes req
 //@   nocall MakeRequest
@@ -792,13 +809,15 @@ package redis
 // ---- C02: every request is completed or handed on exactly once (linear completion tokens) ---------
 
 //@ func (*upstream).MakeRequest
-//@   prop C02 C03
+//@   prop C02 C03 C01
+//@   callpre SetResponse @locally-built-replies-are-one-line oneline(arg1)
 //@   consumes req
 //@   requires u != nil && req != nil && req.body != nil && len(req.body.Array) > 0
 //@   assume u.cfg != nil && forall s int, k int :: 0 <= s && s < 16384 && u.slots[s] != nil && 0 <= k && k < len(u.slots[s].Replicas) ==> u.slots[s].Replicas[k] != nil
 
 //@ func (*upstream).MakeRequestToHost
-//@   prop C02 C04 C20
+//@   prop C02 C04 C20 C01
+//@   callpre SetResponse @locally-built-replies-are-one-line oneline(arg1)
 //@   consumes req
 //@   requires req != nil && req.body != nil && len(req.body.Array) >= 1
 //@   established (*upstream).getClient upstream.createClientCalls @pending-calls-wellformed forall k string :: smhas[u.createClientCalls][k] ==> typeis(smval[u.createClientCalls][k], "*createClientCall") && ifaceptr(smval[u.createClientCalls][k], "*createClientCall") != nil && ifaceptr(smval[u.createClientCalls][k], "*createClientCall").done != nil
@@ -821,12 +840,14 @@ package redis
 //@   assume @ret result1 == nil ==> result0 != nil
 
 //@ func (*client).Send
-//@   prop C02
+//@   prop C02 C01
+//@   callpre SetResponse @locally-built-replies-are-one-line oneline(arg1)
 //@   consumes req
 //@   requires req != nil && req.body != nil && len(req.body.Array) >= 1
 
 //@ func (*client).loopWrite
 //@   prop C02 C01
+//@   callpre SetResponse @locally-built-replies-are-one-line oneline(arg1)
 //@   flag tokens
 //@   requires c != nil
 //@   loop 0 assume c.filter != nil && (forall k int :: 0 <= k && k < len(c.filter.filters) ==> c.filter.filters[k] != nil)
@@ -838,7 +859,8 @@ package redis
 //@   loop 0 assume decoderOK(c.dec) && c.dec.depth == 0
 
 //@ func (*client).drainRequests
-//@   prop C02
+//@   prop C02 C01
+//@   callpre SetResponse @locally-built-replies-are-one-line oneline(arg1)
 //@   flag tokens
 //@   requires c != nil
 
@@ -1054,6 +1076,8 @@ package redis
 //@   requires r != nil && r.raw != nil && r.childWait != nil
 //@   modifies all, atomdecs
 //@   callpre SetResponse @answered-only-by-the-child-that-brings-the-count-to-zero arg0 == r.raw && atomi32[r.childWait] == 0 && arg1 != nil
+//@   callpre SetResponse @locally-built-replies-are-one-line oneline(arg1)
+//@   assume oneline(respOK)
 //@   ensures @every-finished-child-is-counted-exactly-once atomdecs[r.childWait] == old(atomdecs[r.childWait]) + 1
 
 //@ func (*mgetRequest).onChildDone
